@@ -61,6 +61,59 @@ def build(kind, ident):
 _built = {}
 
 
+def rebuilt(x):
+    """an equal state / observation built from scratch: the expected arrays are computed from an object that carries
+    nothing along from earlier conversions or steps"""
+    from gym_gridverse.state import State
+    from ..desc import mkobs, mkstate, sdesc
+    try:
+        return mkstate(sdesc(x)) if isinstance(x, State) else mkobs(sdesc(x))
+    except Exception:  # noqa: BLE001 -- object types the descriptor layer does not know: use the object itself
+        return x
+
+
+def door_sequences(ident, seed, extra=2):
+    """operation sequences that drive a key-and-door configuration through picking the key up and opening the door
+    (breadth-first search over the real functional_step from the seeded initial state), then `extra` more steps"""
+    from ..desc import sdesc
+    env = configs.build(dict(configs.all_configs())[ident])
+    env.set_seed(seed)
+    env.reset()
+    start = env.state
+    actions = list(env.action_space.actions)
+
+    def door_open(k):
+        return any(o[0] == 'Door' and o[1] == 0 for row in k[0] for o in row)
+
+    seen = {sdesc(start): None}
+    frontier = [(start, [])]
+    found = None
+    while frontier and found is None and len(seen) < 20000:
+        nxt = []
+        for st, path in frontier:
+            for i, a in enumerate(actions):
+                st2, _, done = env.functional_step(st, a)
+                k2 = sdesc(st2)
+                if k2 in seen or done:
+                    continue
+                seen[k2] = True
+                if door_open(k2):
+                    found = path + [i]
+                    break
+                nxt.append((st2, path + [i]))
+            if found is not None:
+                break
+        frontier = nxt
+    if found is None:
+        return []
+    out = []
+    for tail in itertools.product(range(len(actions)), repeat=extra):
+        if tail[0] in (0,) or tail == (4, 5):
+            out.append([('reset',)] + [('step', i) for i in found] + [('step', i) for i in tail])
+    out.append([('reset',)] + [('step', i) for i in found] + [('srep', 'compact'), ('step', 0), ('srep', 'default'), ('step', 0)])
+    return out
+
+
 def judge_sequence(kind, ident, seed, ops, wrap_state=False, reuse=False):
     key = (kind, ident)
     if reuse and key in _built:
@@ -109,7 +162,7 @@ def judge_sequence(kind, ident, seed, ops, wrap_state=False, reuse=False):
                 return f'{where}: advertised observation space was not updated consistently'
             if started:
                 cur = ge.observation
-                want_cur = make_observation_representation(oname, twin.observation_space).convert(twin.observation)
+                want_cur = make_observation_representation(oname, twin.observation_space).convert(rebuilt(twin.observation))
                 if not arrays_equal(cur, want_cur) or not ge.observation_space.contains(cur):
                     return f'{where}: after the switch the current observation is not in the new representation / advertised space'
             continue
@@ -122,7 +175,7 @@ def judge_sequence(kind, ident, seed, ops, wrap_state=False, reuse=False):
                 return f'{where}: advertised state space was not updated consistently'
             if started:
                 cur = ge.state
-                if not arrays_equal(cur, make_state_representation(sname, twin.state_space).convert(twin.state)) or not ge.state_space.contains(cur):
+                if not arrays_equal(cur, make_state_representation(sname, twin.state_space).convert(rebuilt(twin.state))) or not ge.state_space.contains(cur):
                     return f'{where}: after the switch the current state is not in the new representation / advertised space'
             if wrap_state:
                 # the wrapper's space is fixed at construction (documented: wraps the env as is); re-wrap
@@ -151,9 +204,9 @@ def judge_sequence(kind, ident, seed, ops, wrap_state=False, reuse=False):
             obs, reward, done, info = out
             if reward != tr or bool(done) != bool(td) or isinstance(reward, bool):
                 return f'{where}: step returned reward/done ({reward}, {done}), the wrapped environment gives ({tr}, {td})'
-        want_obs = orep.convert(twin.observation)
+        want_obs = orep.convert(rebuilt(twin.observation))
         if wrap_state:
-            want_state = srep.convert(twin.state)
+            want_state = srep.convert(rebuilt(twin.state))
             if not arrays_equal(obs, want_state):
                 return f'{where}: the state wrapper did not return the state representation of the current state'
             if not top.observation_space.contains(obs):
@@ -174,7 +227,7 @@ def judge_sequence(kind, ident, seed, ops, wrap_state=False, reuse=False):
         if not arrays_equal(ge.observation, want_obs):
             return f'{where}: the observation property differs from the representation of the current observation'
         if srep is not None and ge.outer_env.state_representation is not None:
-            if not arrays_equal(ge.state, srep.convert(twin.state)):
+            if not arrays_equal(ge.state, srep.convert(rebuilt(twin.state))):
                 return f'{where}: gym-level state is not the representation of the inner state'
             if ge.state_space is not None and not ge.state_space.contains(ge.state):
                 return f'{where}: gym-level state outside the advertised state space'
@@ -318,6 +371,24 @@ def run(rep, tier, seed):
         n += k
         ops += o
         fails.extend(fl)
+    dn = 0
+    for ident in [nm for nm in names if nm.startswith('keydoor') and (tier != 'quick' or nm in ('keydoor.5x5', 'keydoor.7x7'))]:
+        for sd in (base, base + 1):
+            for seq in door_sequences(ident, sd):
+                for wrap in (False, True):
+                    dn += 1
+                    ops += len(seq)
+                    try:
+                        m = judge_sequence('direct', ident, sd, seq, wrap_state=wrap)
+                    except Exception as e:  # noqa: BLE001
+                        m = f'direct {ident}: sequence {seq} raised {type(e).__name__}: {e}'
+                    if m and len([f for f in fails if f['sig'].get('part') == 'door_sequences']) < 2:
+                        fails.append({'kind': 'seq', 'wrap': 'direct', 'ident': ident, 'seed': sd, 'ops': seq, 'wrap_state': wrap,
+                                      'message': m, 'sig': {'ident': ident, 'wrap': 'direct', 'state_wrapper': wrap, 'part': 'door_sequences'},
+                                      'simplicity': len(seq)})
+    n += dn
+    rep.part('door_sequences', sequences=dn, rule='shortest action path from the seeded initial state to an opened door (search over the '
+             'real functional_step), followed by further steps / state-representation switches; with and without the state wrapper')
     extra_n = 0
     for kind, idents in (('direct', names[:6]), ('make', ids), ('entry_point', ids)):
         for ident in idents:
